@@ -75,8 +75,10 @@ let () =
     print_endline ("disk " ^ show_disk d
       ^ (match m.mcur with None -> " cur:none" | Some c -> Printf.sprintf " cur:%d" (i c))
       ^ Printf.sprintf " next:%d since:%d pend:%d pruned:%d" (i m.mnext) (i m.msince) (List.length m.mpend) (i m.mpruned));
-    let mo = reopen_obs d in
-    print_endline ("model " ^ (match mo with None -> "err" | Some l -> show_ents l));
+    (* state queries (no observation) do not need the model's reopen *)
+    if parse_obs obss = None then print_endline "model ?" else begin
+      let mo = reopen_obs d in
+      print_endline ("model " ^ (match mo with None -> "err" | Some l -> show_ents l)) end;
     (match parse_obs obss with
      | None -> print_endline "allowed ? | ?"; print_endline "pred ? ?"
      | Some o ->
